@@ -150,6 +150,16 @@ def run_harness(vh, msgs, seed, workdir, name="trace"):
     return inp, outp
 
 
+def run_fuzz(vh, n, seed, first, workdir, name="fuzz"):
+    """Free-running direction: n random concrete messages generated and executed by the harness (recorded lines only)."""
+    outp = os.path.join(workdir, name + ".ndjson")
+    rc, out = vlib.run([vh, "limits", "fuzz", "-n", str(n), "-seed", str(seed), "-first", str(first), "-out", outp],
+                       timeout=2400)
+    if rc != 0:
+        raise vlib.Inconclusive("vh limits fuzz failed (rc=%d):\n%s" % (rc, out[-3000:]))
+    return outp
+
+
 def judge(consts, trace_path, timeout=1500):
     """Run LimitsTrace on one ndjson file; returns list of verdict dicts (one per line)."""
     n = sum(1 for _ in open(trace_path))
@@ -304,19 +314,26 @@ def run(pid, tier, seed, replay):
     # ---- J2: execute on the real code
     t1 = time.time()
     inp, trace = run_harness(vh, msgs, seed, work)
-    vlib.log("[C19] J2: %d messages executed on the real app in %.1fs" % (len(msgs), time.time() - t1))
+    nfuzz = 1500 if tier == "quick" else 40000
+    fz = run_fuzz(vh, nfuzz, seed, len(msgs) + 1, work)
+    with open(trace, "a") as fh:
+        fh.write(open(fz).read())
+    fuzz_info = {"n": nfuzz, "seed": seed, "first": len(msgs) + 1}
+    vlib.log("[C19] J2: %d enumerated + %d random concrete messages executed on the real app in %.1fs" % (
+        len(msgs), nfuzz, time.time() - t1))
 
     # ---- J3: TLC judges the recorded lines
     t2 = time.time()
     verdicts, nchunks = judge_chunks(consts, trace, work, chunk=1700 if tier == "quick" else 6000, par=min(4, vlib.NCPU))
     vlib.log("[C19] J3: %d lines judged by TLC in %d runs, %.1fs" % (len(verdicts), nchunks, time.time() - t2))
-    if len(verdicts) != len(msgs):
-        raise vlib.Inconclusive("J3 judged %d of %d lines" % (len(verdicts), len(msgs)))
+    if len(verdicts) != len(msgs) + nfuzz:
+        raise vlib.Inconclusive("J3 judged %d of %d lines" % (len(verdicts), len(msgs) + nfuzz))
     st = selftest(consts, trace, work, verdicts)
 
     return conclude(pid, tier, seed, t0, consts, table, msgs, trace, verdicts, assumptions, dict(
         states=states, transitions=generated - len(exported), j1_messages=len(exported), sim_messages=len(sim),
-        families=fam_count, asfound_spec_violates=ra.violated, binding_selftest=st, tlc_trace_runs=nchunks), work)
+        families=fam_count, asfound_spec_violates=ra.violated, binding_selftest=st, tlc_trace_runs=nchunks,
+        fuzz=fuzz_info), work)
 
 
 def conclude(pid, tier, seed, t0, consts, table, msgs, trace, verdicts, assumptions, cov, work):
@@ -345,9 +362,12 @@ def conclude(pid, tier, seed, t0, consts, table, msgs, trace, verdicts, assumpti
         for sig, what in bad:
             detail = "%s\nmessage: %s\nresult: accepted=%s reason=%s err=%s\nspec verdict: %s" % (
                 what, json.dumps(describe(ln["msg"])), ln["accepted"], ln["reason"], ln["err"], v["expect"])
-            violations.append(vlib.Violation(pid, sig, detail, {
-                "msgs.ndjson": json.dumps(bym[v["id"]]) + "\n", "trace.ndjson": json.dumps(ln) + "\n",
-                "seed": str(seed) + "\n"}))
+            files = {"trace.ndjson": json.dumps(ln) + "\n", "seed": str(seed) + "\n"}
+            if v["id"] in bym:
+                files["msgs.ndjson"] = json.dumps(bym[v["id"]]) + "\n"
+            else:                                       # a random concrete message: regenerated from its seed
+                files["fuzz.json"] = json.dumps(dict(cov.get("fuzz", {}), id=v["id"])) + "\n"
+            violations.append(vlib.Violation(pid, sig, detail, files))
         if bad:
             continue                                  # a violation is reported as such, not as drift
         if not v["conf"]:
@@ -371,9 +391,11 @@ def conclude(pid, tier, seed, t0, consts, table, msgs, trace, verdicts, assumpti
     coverage = dict(cov)
     coverage.update(
         traces_validated_against_impl=len(verdicts), evaluations=len(verdicts), distinct_nontrivial=outside,
+        fuzz_messages=sum(1 for ln in lines.values() if ln["fam"] == "fuzz"),
         rule="distinct abstract create-deployment messages (deduplicated on the whole message) enumerated by TLC from the "
-             "covering families of Limits.tla plus a TLC simulation of the field-by-field builder; non-trivial = violates "
-             "at least one clause of WithinLimits (each must be refused by the real code)",
+             "covering families of Limits.tla plus TLC simulations of the two message builders, plus random concrete messages "
+             "generated by the harness (family fuzz, not deduplicated); non-trivial = violates at least one clause of "
+             "WithinLimits (each must be refused by the real code)",
         accepted=accepted, rejected=len(verdicts) - accepted, outcome_reasons=reasons, samples=samples,
         exhaustive=True, exhaustive_note="the covering enumeration is complete (every family member executed); the product "
                                          "space of all class combinations is sampled by simulation only",
@@ -388,18 +410,30 @@ def conclude(pid, tier, seed, t0, consts, table, msgs, trace, verdicts, assumpti
 
 def do_replay(pid, tier, seed, path, vh, consts, work, t0, assumptions):
     """Re-execute the saved message(s) on the current tree and re-judge them with TLC."""
-    src = os.path.join(path, "msgs.ndjson") if os.path.isdir(path) else path
-    if not os.path.exists(src):
-        raise vlib.Inconclusive("replay: %s not found" % src)
-    sd = os.path.join(os.path.dirname(src), "seed")
+    d = path if os.path.isdir(path) else os.path.dirname(path)
+    extra = {}
+    sd = os.path.join(d, "seed")
     if os.path.exists(sd):
         seed = int(open(sd).read().strip())
-        consts = interior({k: v for k, v in consts.items()}, seed)
-    msgs = [json.loads(l) for l in open(src) if l.strip()]
-    inp, trace = run_harness(vh, msgs, seed, work, "replay")
+        consts = interior(get_table(vh)["tla"], seed)
+    fj = os.path.join(d, "fuzz.json")
+    if os.path.exists(fj) and not (os.path.isfile(path) and path.endswith("msgs.ndjson")):
+        fz = json.load(open(fj))
+        allf = run_fuzz(vh, fz["n"], fz["seed"], fz["first"], work, "replay-fuzz")
+        trace = os.path.join(work, "replay.ndjson")
+        with open(trace, "w") as fh:
+            fh.write("".join(l for l in open(allf) if json.loads(l)["id"] == fz["id"]))
+        msgs, src = [], fj
+        extra = {"fuzz": {k: fz[k] for k in ("n", "seed", "first")}}
+    else:
+        src = os.path.join(path, "msgs.ndjson") if os.path.isdir(path) else path
+        if not os.path.exists(src):
+            raise vlib.Inconclusive("replay: %s not found" % src)
+        msgs = [json.loads(l) for l in open(src) if l.strip()]
+        inp, trace = run_harness(vh, msgs, seed, work, "replay")
     verdicts = judge(consts, trace)
     table = get_table(vh)
     r = j1(consts, "tiny", "intended", export=False, timeout=600)[0]
     vlib.tlc_require_ok(r, "J1 Limits (replay)")
     return conclude(pid, tier, seed, t0, consts, table, msgs, trace, verdicts, assumptions,
-                    dict(states=r.distinct, transitions=r.generated - r.distinct // 2, replay=src), work)
+                    dict(extra, states=r.distinct, transitions=r.generated - r.distinct // 2, replay=src), work)
